@@ -59,6 +59,17 @@ func concPlan(tier string) plan {
 	}}
 }
 
+// concPlan8: the quick tier of the trial-heavy checks runs eight shards at a time (their trials wait more than they compute)
+func concPlan8(tier string) plan {
+	p := concPlan(tier)
+	if tier != "thorough" {
+		for i := range p.Variants {
+			p.Variants[i].Shards, p.Variants[i].Parallel = 8, 8
+		}
+	}
+	return p
+}
+
 func compPlan(tier string) plan {
 	p := concPlan(tier)
 	if tier == "thorough" {
@@ -70,7 +81,7 @@ func compPlan(tier string) plan {
 var plans = map[string]func(string) plan{
 	"C01": seqPlan, "C03": concPlan, "C07": seqPlan, "C10": seqPlan, "C11": concPlan, "C12": seqPlan,
 	"C13": seqPlan, "C19": seqPlan, "C20": concPlan, "C18": seqPlan,
-	"C02": concPlan, "C04": concPlan, "C05": concPlan, "C06": concPlan, "C08": concPlan, "C09": concPlan, "C14": concPlan,
+	"C02": concPlan8, "C04": concPlan8, "C05": concPlan8, "C06": concPlan8, "C08": concPlan, "C09": concPlan, "C14": concPlan,
 	"C15": compPlan, "C16": compPlan, "C17": compPlan,
 }
 
